@@ -1,6 +1,7 @@
 package rules
 
 import (
+	"golang.org/x/tools/go/packages"
 	"fmt"
 	"go/ast"
 	"go/token"
@@ -228,6 +229,11 @@ type ctorRow struct {
 	Marshal   string // basic primitive named in the marshal template
 	Unmarshal string
 	Pos       token.Pos
+	// for constructors whose reader / Go type are derived from a signature
+	// string (MakeReader(x), Parse(y).Type()): the strings, "?" if they cannot
+	// be resolved statically, "" if not of that form
+	ReaderSig string
+	TypSig    string
 }
 
 // ctorTable extracts the rows of the scalar type constructors of
@@ -313,6 +319,31 @@ func ctorTable(c *core.Ctx) []ctorRow {
 						}
 					}
 				}
+				// reader: x / typ: y.Type() where x, _ := MakeReader(s) and y, _ := Parse(s)
+				for _, el := range cl.Elts {
+					kv, ok := el.(*ast.KeyValueExpr)
+					if !ok {
+						continue
+					}
+					k, _ := kv.Key.(*ast.Ident)
+					if k == nil {
+						continue
+					}
+					switch k.Name {
+					case "reader":
+						if id, ok := kv.Value.(*ast.Ident); ok {
+							row.ReaderSig = derivedFrom(p, fd, id, "MakeReader")
+						}
+					case "typ":
+						if call, ok := kv.Value.(*ast.CallExpr); ok {
+							if sel, ok := call.Fun.(*ast.SelectorExpr); ok && sel.Sel.Name == "Type" {
+								if id, ok := sel.X.(*ast.Ident); ok {
+									row.TypSig = derivedFrom(p, fd, id, "Parse")
+								}
+							}
+						}
+					}
+				}
 				rows = append(rows, row)
 				return false
 			})
@@ -320,6 +351,137 @@ func ctorTable(c *core.Ctx) []ctorRow {
 	}
 	sort.Slice(rows, func(i, j int) bool { return rows[i].Func < rows[j].Func })
 	return rows
+}
+
+// derivedFrom: local variable id of fd is defined by `id, _ := <fn>(arg)`;
+// returns the static value of arg ("?" if it cannot be resolved, "" if id is
+// not defined that way).
+func derivedFrom(p *packages.Package, fd *ast.FuncDecl, id *ast.Ident, fn string) string {
+	obj := p.TypesInfo.ObjectOf(id)
+	res := ""
+	ast.Inspect(fd.Body, func(n ast.Node) bool {
+		as, ok := n.(*ast.AssignStmt)
+		if !ok || len(as.Rhs) != 1 || len(as.Lhs) == 0 {
+			return true
+		}
+		l, ok := as.Lhs[0].(*ast.Ident)
+		if !ok || p.TypesInfo.ObjectOf(l) != obj {
+			return true
+		}
+		call, ok := as.Rhs[0].(*ast.CallExpr)
+		if !ok || len(call.Args) != 1 {
+			return true
+		}
+		name := ""
+		switch f := call.Fun.(type) {
+		case *ast.Ident:
+			name = f.Name
+		case *ast.SelectorExpr:
+			name = f.Sel.Name
+		}
+		if name != fn {
+			return true
+		}
+		if v, ok := staticString(p, call.Args[0], 0); ok {
+			res = v
+		} else {
+			res = "?"
+		}
+		return true
+	})
+	return res
+}
+
+// staticString evaluates a string expression that is a constant, a local or
+// package-level variable with a single static initialiser, a concatenation of
+// such, or fmt.Sprintf with a constant format using only %s and static arguments.
+func staticString(p *packages.Package, e ast.Expr, depth int) (string, bool) {
+	info := p.TypesInfo
+	if depth > 6 {
+		return "", false
+	}
+	if tv, ok := info.Types[e]; ok && tv.Value != nil {
+		return stringLit(info, e), true
+	}
+	switch x := e.(type) {
+	case *ast.ParenExpr:
+		return staticString(p, x.X, depth+1)
+	case *ast.BinaryExpr:
+		if x.Op == token.ADD {
+			a, ok1 := staticString(p, x.X, depth+1)
+			b, ok2 := staticString(p, x.Y, depth+1)
+			return a + b, ok1 && ok2
+		}
+	case *ast.Ident:
+		obj, ok := info.ObjectOf(x).(*types.Var)
+		if !ok {
+			return "", false
+		}
+		// find the single defining initialiser (package level or local :=)
+		var init ast.Expr
+		n := 0
+		for _, f := range p.Syntax {
+			ast.Inspect(f, func(m ast.Node) bool {
+				switch d := m.(type) {
+				case *ast.ValueSpec:
+					for i, nm := range d.Names {
+						if info.Defs[nm] == obj && i < len(d.Values) {
+							init = d.Values[i]
+							n++
+						}
+					}
+				case *ast.AssignStmt:
+					for i, l := range d.Lhs {
+						if id, ok := l.(*ast.Ident); ok && info.ObjectOf(id) == obj && len(d.Lhs) == len(d.Rhs) {
+							init = d.Rhs[i]
+							n++
+						}
+					}
+				}
+				return true
+			})
+		}
+		if n == 1 && init != nil {
+			return staticString(p, init, depth+1)
+		}
+	case *ast.CallExpr:
+		if sel, ok := x.Fun.(*ast.SelectorExpr); ok && sel.Sel.Name == "Sprintf" && len(x.Args) >= 1 {
+			format, ok := staticString(p, x.Args[0], depth+1)
+			if !ok {
+				return "", false
+			}
+			var out strings.Builder
+			ai := 1
+			for i := 0; i < len(format); i++ {
+				if format[i] != '%' {
+					out.WriteByte(format[i])
+					continue
+				}
+				if i+1 >= len(format) {
+					return "", false
+				}
+				i++
+				switch format[i] {
+				case '%':
+					out.WriteByte('%')
+				case 's':
+					if ai >= len(x.Args) {
+						return "", false
+					}
+					v, ok := staticString(p, x.Args[ai], depth+1)
+					if !ok {
+						return "", false
+					}
+					out.WriteString(v)
+					ai++
+				default:
+					return "", false
+				}
+			}
+			return out.String(), true
+		}
+	}
+	return "", false
 }
 
 func stringLit(info *types.Info, e ast.Expr) string {
